@@ -480,6 +480,56 @@ func runC17(cs core.Case, verbose bool) core.CaseResult {
 	if spec.Kind == "workload" {
 		what = spec.Prop + " case " + spec.Case.ID
 	}
+	// one more replica under the Go race detector (check.sh builds that binary with -race and names it in
+	// VERIF_RACE_BIN): block execution that starts goroutines sharing the context, the gas meter or a store is
+	// reported as a data race whatever the schedule of this run happened to be; its trace is compared as well
+	if rb := os.Getenv("VERIF_RACE_BIN"); rb != "" {
+		out := filepath.Join(tmp, fmt.Sprintf("trace%d.txt", spec.Reps)) // numbered like the others: the comparison below names files by index
+		logp := filepath.Join(tmp, "race")
+		cmd := exec.Command(rb, "-c17child", specPath, "-out", out)
+		cmd.Env = append(os.Environ(), "GOMAXPROCS=16", "GOGC=100", "TZ=UTC", "LANG=C", "GORACE=halt_on_error=0 exitcode=0 history_size=3 log_path="+logp)
+		if b, err := cmd.CombinedOutput(); err != nil {
+			res.Inconclusive = fmt.Sprintf("race-detector replica failed: %v %s", err, short(string(b)))
+			return res
+		}
+		bz, err := os.ReadFile(out)
+		if err != nil {
+			res.Inconclusive = err.Error()
+			return res
+		}
+		traces = append(traces, strings.Split(strings.TrimSpace(string(bz)), "\n"))
+		res.Count("race_detector_replicas", 1)
+		logs, _ := filepath.Glob(logp + ".*")
+		seen := map[string]bool{}
+		for _, lf := range logs {
+			lb, _ := os.ReadFile(lf)
+			for _, blk := range strings.Split(string(lb), "==================") {
+				if !strings.Contains(blk, "WARNING: DATA RACE") {
+					continue
+				}
+				// attributed to the first fx-core frame of the report; a report with no fx-core frame at all
+				// (a dependency's own background goroutines) is counted, not judged
+				fn := ""
+				for _, l := range strings.Split(blk, "\n") {
+					l = strings.TrimSpace(l)
+					if strings.HasPrefix(l, "github.com/functionx/fx-core/") {
+						fn = strings.TrimPrefix(l, "github.com/functionx/fx-core/")
+						fn = strings.TrimPrefix(strings.TrimSuffix(fn, "()"), "v8/")
+						break
+					}
+				}
+				if fn == "" {
+					res.Count("race_reports_without_fxcore_frames", 1)
+					continue
+				}
+				res.Count("race_reports_in_fxcore_paths", 1)
+				if !seen[fn] {
+					seen[fn] = true
+					res.Violate("C17/data-race/"+fn, "history %s: the race detector reports unsynchronised concurrent access during block execution (outcome depends on the schedule):\n%s", what, c17RaceDigest(blk))
+				}
+			}
+		}
+	}
 	blocks, ops, drops := 0, 0, 0
 	for _, l := range traces[0] {
 		switch {
@@ -584,4 +634,27 @@ func c17Pinpoint(fa, fb string, line int, la, lb string) (where, detail string) 
 		}
 	}
 	return "other", "response bytes differ"
+}
+
+// c17RaceDigest keeps the lines of a race report that identify it: the two accesses and the first frames below each.
+func c17RaceDigest(blk string) string {
+	var keep []string
+	n := 0
+	for _, l := range strings.Split(blk, "\n") {
+		t := strings.TrimSpace(l)
+		switch {
+		case t == "":
+			n = 0
+		case strings.HasSuffix(t, ":") || strings.HasPrefix(t, "WARNING"):
+			keep = append(keep, "  "+t)
+			n = 0
+		case !strings.HasPrefix(t, "/") && n < 4:
+			keep = append(keep, "      "+t)
+			n++
+		}
+	}
+	if len(keep) > 40 {
+		keep = keep[:40]
+	}
+	return strings.Join(keep, "\n")
 }
